@@ -500,9 +500,16 @@ fn small_scope(tier: Tier) -> impl Iterator<Item = DCase> {
     let max_len = tier.pick(9, 12);
     let mut v = vec![];
     for len in 0..=max_len {
-        for w in 1..=len + 3 {
+        // windows 1..=len+3, plus the two ways of asking for an expanding window (usize::MAX and 2^63)
+        // on a reduced matrix
+        let mut windows: Vec<usize> = (1..=len + 3).collect();
+        if len <= 6 {
+            windows.push(usize::MAX);
+            windows.push(1usize << 63);
+        }
+        for w in windows {
             for (k, drv) in DRIVERS.iter().enumerate() {
-                for bk in Backend::all(len + w + k) {
+                for bk in Backend::all(len.wrapping_add(w).wrapping_add(k)) {
                     for ok in OutKind::ALL {
                         for out_buf in [false, true] {
                             if drv.always_buffer() && !out_buf {
